@@ -170,7 +170,7 @@ def indicator(data, levels):
 
 def check_encode(case) -> Outcome:
     import pandas
-    from formulaic import model_matrix
+    from ..libio import model_matrix
     from formulaic.errors import DataMismatchWarning
     from formulaic.transforms.contrasts import encode_contrasts
 
